@@ -8,6 +8,7 @@ import random
 
 SUPPORT = """
   <enum name="E" type="char"><value name="A">0</value><value name="B">1</value><value name="None">2</value></enum>
+  <enum name="B" type="byte"><value name="Zero">0</value><value name="Top">255</value></enum>
   <enum name="W" type="short"><value name="Lo">1</value><value name="Hi">300</value></enum>
   <struct name="S"><field name="p" type="char"/><field name="q" type="short"/></struct>
   <struct name="V"><field name="n" type="char"/><field name="t" type="string"/></struct>
@@ -23,6 +24,9 @@ TEMPLATES = {
     "bool": ('<field name="f{i}" type="bool"/>', False),
     "boolshort": ('<field name="f{i}" type="bool:short"/>', False),
     "enum": ('<field name="f{i}" type="E"/>', False),
+    # same-width overrides are not no-ops: byte is raw 0..255, char is encoded 0..252
+    "enumBchar": ('<field name="f{i}" type="B:char"/>', False),
+    "enumEbyte": ('<field name="f{i}" type="E:byte"/>', False),
     "enumover": ('<field name="f{i}" type="W:three"/>', False),
     "str": ('<field name="f{i}" type="string"/>', False),
     "str3": ('<field name="f{i}" type="string" length="3"/>', False),
